@@ -1,7 +1,8 @@
 import Mimium.Proofs.ModRes
 import Mimium.Gen.C17
-/-! Specification vocabulary of C17 (what the property theorems talk about) and the witnesses of finding F12.
-Names used in witnesses: `0 = dsp`, `1 = a`, `2 = secret`, `3 = b`, `4 = p`. -/
+/-! Specification vocabulary of C17 (what the property theorems talk about), the fixtures of the repaired finding F12
+(`pub use` published a private member; /repo c6822e4 + 3b64798) and the witness of finding F12-cycle.
+Names used in fixtures: `0 = dsp`, `1 = a`, `2 = secret`, `3 = b`, `4 = p`, `5 = x`. -/
 namespace Mimium.ModRes
 
 /-- the two forms a reference takes after parsing -/
@@ -55,6 +56,23 @@ def f12wild : List Item :=
   [.mod false 1 [.fn false 2 [] (.lit 7), .use true [1, 2] .single], .use false [1] .wildcard,
    .mod false 3 [.fn true 4 [] (.call (.var [2]))], .fn false 0 [] (.call (.qvar [3, 4]))]
 
+
+/-- the order-dependent case that c6822e4 alone did not close — the re-export stands *before* the private function it
+names, so the exported name is recorded public; rejected at the use site since 3b64798:
+`mod a { mod x { pub use a::secret }  fn secret(){7.0} }  fn dsp(){ a::x::secret() }` -/
+def f12order : List Item :=
+  [.mod false 1 [.mod false 5 [.use true [1, 2] .single], .fn false 2 [] (.lit 7)],
+   .fn false 0 [] (.call (.qvar [1, 5, 2]))]
+
+/-- finding **F12-cycle**: two re-exports that name each other.  `a::x::secret` is exported while `a$secret` is still
+unknown (recorded public, alias `a$x$secret → a$secret`); after the private `fn secret`, `pub use a::x::secret` exports
+the name `a$secret` *itself*, overwriting its visibility entry with the one of `a$x$secret` (public) and registering the
+alias `a$secret → a$x$secret`.  A reference `a::secret` then follows the alias cycle back to `a$secret`: the chain has
+not moved, so no target check, and the entry of the name says public:
+`mod a { mod x { pub use a::secret }  fn secret(){7.0}  pub use a::x::secret }  fn dsp(){ a::secret() }` -/
+def f12cycle : List Item :=
+  [.mod false 1 [.mod false 5 [.use true [1, 2] .single], .fn false 2 [] (.lit 7), .use true [1, 5, 2] .single],
+   .fn false 0 [] (.call (.qvar [1, 2]))]
 
 /-- the flat, `$`-mangled name space is the path name space of the tree: the function events of the walk of a
 module tree are exactly its members, reached by walking the path. -/
@@ -157,17 +175,12 @@ def closedUnder : List (List Sym) → Expr → Bool
   | ls, .letrec f e t => closedUnder ([f] :: ls) e && closedUnder ([f] :: ls) t
 
 
-/-! ### the class of trees whose re-exports are harmless (decidable per tree) -/
+/-! ### trees whose visibility map is faithful to the declarations (decidable per tree) -/
 
 /-- the visibility map records, for every declared function, its declared visibility
 (fails when a `pub use` export or a second declaration overwrites an entry) -/
 def visFaithful (evs : List Ev) : Bool :=
   (fnDecls evs).all (fun d => decide (get? (lowerInfo evs).vis d.1 = some d.2))
-
-/-- no re-exported name (alias key with a module part) leads to something the visibility map marks private -/
-def reexportsPublic (evs : List Ev) : Bool :=
-  (lowerInfo evs).alias.all (fun a =>
-    decide (a.1.length < 2) || decide (get? (lowerInfo evs).vis (aliasChain (lowerInfo evs).alias a.1) ≠ some false))
 
 /-- `mod internal { pub fn helper(){42.0} }  mod api { pub use internal::helper }` (fixture module_pub_use.mmm) -/
 def pubUseFixture : List Item :=
